@@ -59,7 +59,7 @@ CLAIMS = {
              'Quadratic::partial_evaluate (both loops incl. the three-array swap_remove loop with `continue`, BTreeMap entry API, Linear::new: Ok exactly for COO arrays of equal lengths, an error leaves the function untouched, no fixed id left, returned set exact, and at every assignment that agrees with the fixed part the value is the old value minus a DEFINED remainder - the entries with |v| <= EPSILON of the exact linear part, which Linear::new drops), '
              'Function::partial_evaluate (dispatch), Constraint/RemovedConstraint::partial_evaluate and Instance::partial_evaluate (fixed values recorded on exactly the right variables, objective / every active / every removed constraint '
              'partially evaluated in place, everything else framed). Ghost lemmas: commutation with evaluation on any split of a state, and two-step = one-step.',
-        note=A1 + 'ASSUMED, not verified: Polynomial::partial_evaluate (BTreeMap keyed by Vec<u64>; its epsilon-dropped remainder is left uninterpreted), the HashMap::values_mut loop over dependency functions, and Linear::new as a callee (verified in C02 / C12; same contract text). The property is decided for constant, linear and quadratic functions and for the structural (instance) layer; for polynomials only relative to the assumed contract.',
+        note=A1 + 'Polynomial::partial_evaluate is PROVED too (map keyed by id lists: model type VMap, rule R28; the result lists the specified merge ppe_map - coefficient times the product of the fixed values under the list of unfixed ids, monomials with |c| <= EPSILON skipped, entries with |sum| <= EPSILON dropped - and the remainder is defined as the difference to it). The shared relation says the returned set holds ONLY fixed variables that occurred (the statement\'s wording): Linear and Quadratic prove equality, Polynomial does not return the ids of a skipped monomial (./bin/rx demo O2) - an earlier version of the assumed polynomial contract demanded equality and was false on the real code. ASSUMED, not verified: the HashMap::values_mut loop over dependency functions, Linear::new as a callee (verified in C02 / C12; same contract text), and the std helpers of the two map-based units.',
         technique='contract-based deductive verification (Verus) of mechanically extracted Rust functions; ghost lemmas over the contracts',
         ref='DESIGN 6 C03'),
     'C12': dict(
@@ -86,7 +86,7 @@ CLAIMS = {
     'C10': dict(
         text='Deductive proof (Verus) of the real text of ParametricInstance::with_parameters (a declared parameter without a value => Err; otherwise objective and every active constraint are the C03 partial evaluation of the parametric functions by the parameter values - hence equal value at every (x,p) - '
              'with decision variables, sense, constraint ids/order, removed constraints, hints, dependencies, description unchanged and the supplied values recorded), of From<Instance> for ParametricInstance, From<State>/<Parameters>, and of the partial_evaluate callees; round-trip lemma for the empty assignment.',
-        note=A1 + 'Quadratic::partial_evaluate is verified here too (same unit as C03). ASSUMED callee contracts: Polynomial::partial_evaluate (see C03), Linear::new (verified in C02 / C12). The logging-only loop over missing parameters is dropped by a declared substitution.',
+        note=A1 + 'Quadratic::partial_evaluate and Polynomial::partial_evaluate are verified here too (same units as C03). ASSUMED callee contract: Linear::new (verified in C02 / C12). The logging-only loop over missing parameters is dropped by a declared substitution.',
         technique='contract-based deductive verification (Verus) of mechanically extracted Rust functions',
         ref='DESIGN 6 C10'),
     'C13': dict(
